@@ -19,7 +19,7 @@ KINDS = {
     "vertex_perm": "exact", "triangle_rotation": "exact", "rename": "exact", "boundary_order": "exact",
     "interface_order": "exact", "format_off": "exact", "format_bnd": "exact", "api": "exact", "syntax": "exact",
     "cond_order": "exact", "mesh_flip": "exact", "local_flips": "exact", "old_ordering": "exact", "reload": "exact",
-    "domain_order": "exact", "domain_reverse": "exact",
+    "domain_order": "exact", "domain_reverse": "exact", "interface_mesh_reverse": "exact", "load_then_finalize": "exact",
     "triangle_order": "asym", "mesh_order": "asym",
     "format_mesh32": "exact32",
 }
@@ -61,13 +61,20 @@ def base_model(rng, quick):
     # repair (2b0b76f), but the EEG sensor projection then depends on the order of the Domains section (known finding,
     # replayed below together with the former singular-matrix witness, which now agrees to rounding).
     # One-layer heads are regular since the repair of mark_current_barriers (parts of a single mesh are deflated).
-    kind = rng.choice(["nested", "nested", "nested", "split", "inclusions"])
+    kind = rng.choice(["nested", "nested", "nested", "split", "inclusions", "capped"])
     def sig(): return rng.choice([1.0, 0.33, 0.0125, 1.79, 0.2])
     lvl = 1
     if kind == "nested":
         n = rng.randint(1, 3); radii = [1.0]
         for _ in range(n - 1): radii.insert(0, radii[0] * rng.uniform(0.75, 0.92))
         m = models.nested(radii, [sig() for _ in range(n)], lvl)
+        m["info"]["src_radius"] = radii[0]
+    elif kind == "capped":
+        # nested head whose OUTER interface (the EEG projection surface) is stored as two cap meshes
+        n = rng.randint(1, 3); radii = [1.0]
+        for _ in range(n - 1): radii.insert(0, radii[0] * rng.uniform(0.75, 0.92))
+        cap = {n - 1} | ({0} if (n > 1 and rng.random() < 0.5) else set())
+        m = gd.capped_nested(radii, [sig() for _ in range(n)], 2, cap, rng)
         m["info"]["src_radius"] = radii[0]
     elif kind == "split":
         k = rng.randint(1, 2); ro = [1.0 * (1.15 ** (i + 1)) for i in range(k)]
@@ -137,6 +144,9 @@ def variant(m, rng, kind):
     fmt, style, api = "tri", "1.1", False
     if kind in ("vertex_perm", "triangle_rotation", "rename", "boundary_order", "interface_order", "triangle_order", "mesh_order", "domain_order", "mesh_flip", "local_flips"):
         v = gd.redescribe(m, rng, kind)
+    elif kind == "interface_mesh_reverse":
+        v = gd.redescribe(m, rng, "identity"); v["interfaces"] = [(n, list(reversed(ms))) for n, ms in v["interfaces"]]
+    elif kind == "load_then_finalize": v, api = m, 3
     elif kind == "domain_reverse":
         v = gd.redescribe(m, rng, "identity"); v["domains"] = list(reversed(v["domains"]))
     elif kind == "format_off": v, fmt = m, "off"
@@ -204,13 +214,13 @@ def main(replay=None):
     runs = []      # dict(kind, base index, hline, model)
     def add(cid, v, fmt, style, api, dips, sens, kind, base, cond_shuffle=False, old=False, obs=()):
         d = os.path.join(ck.workdir, "c%d" % cid); shutil.rmtree(d, ignore_errors=True); os.makedirs(d)
-        if api: write_api(v, d)
+        if api is True or api == 2: write_api(v, d)
         else:
             g = gd.write_geom(v, d, fmt, style, rng)
             if g is None: gd.write_geom(v, d, fmt, "1.1", rng)
             gd.write_cond(v, d, rng if cond_shuffle else None)
         ecog = 1 if v.get("info", {}).get("kind") == "nested" and len(v["meshes"]) >= 2 else 0
-        hline = core.fcase("c06", [2 if api else 1, cid, len(dips), len(sens), 1 if old else 0, len(obs), ecog], [x for dd in dips for x in dd] + [x for s in sens for x in s] + [x for o_ in obs for x in o_])
+        hline = core.fcase("c06", [3 if api == 3 else (2 if api else 1), cid, len(dips), len(sens), 1 if old else 0, len(obs), ecog], [x for dd in dips for x in dd] + [x for s in sens for x in s] + [x for o_ in obs for x in o_])
         runs.append(dict(kind=kind, base=base, hline=hline, model=v, fmt=fmt, style=style, api=api, dips=dips, sens=sens, cid=cid, old=old, obs=[tuple(o_) for o_ in obs]))
     if replay:
         R = json.load(open(replay))
@@ -221,9 +231,13 @@ def main(replay=None):
     else:
         nbase = 10 if quick else 40
         kinds = list(KINDS)
-        for b in range(nbase + 1):
-            # the last base of every run: a non-convex outermost surface (bounding-box centre outside the conductor)
-            m = base_model(rng, quick) if b < nbase else bowl_base(rng)
+        for b in range(nbase + 2):
+            # the last bases of every run: an outermost interface stored as two meshes (EEG projection surface), and a
+            # non-convex outermost surface (bounding-box centre outside the conductor)
+            if b < nbase: m = base_model(rng, quick)
+            elif b == nbase:
+                m = gd.capped_nested([0.8, 1.0], [rng.choice([1.0, 0.33]), rng.choice([0.0125, 0.2])], 2, [1], rng); m["info"]["src_radius"] = 0.8
+            else: m = bowl_base(rng)
             dips, sens = sources_sensors(m, rng)
             base_idx = len(runs)
             obs = observation_points(m, rng)
@@ -239,7 +253,12 @@ def main(replay=None):
                     continue
                 if kind == "old_ordering":
                     # the other enumeration of the unknowns offered by the library (asserted for nested geometries only)
-                    if m["info"].get("kind") == "nested": add(len(runs), m, "tri", "1.1", False, dips, sens, kind, base_idx, old=True, obs=obs)
+                    if m["info"].get("kind") == "nested" and m["info"].get("topology") != "capped":   # shared vertices: OLD_ORDERING is not a bijection
+                        add(len(runs), m, "tri", "1.1", False, dips, sens, kind, base_idx, old=True, obs=obs)
+                    continue
+                if m["info"].get("topology") == "capped" and kind in ("vertex_perm", "mesh_order"):
+                    # known finding (replayed below): with an outermost interface stored as several meshes the deflation is
+                    # applied mesh by mesh with a coefficient read at the first vertex: relabelling changes the gain
                     continue
                 v, fmt, style, api = variant(m, rng, kind)
                 if kind == "format_mesh32":
@@ -256,6 +275,11 @@ def main(replay=None):
         wr = _r.Random(12345); wd, ws = sources_sensors(wm, wr)
         bi = len(runs); add(len(runs), wm, "tri", "1.1", False, wd, ws, "base", None)
         add(len(runs), gd.redescribe(wm, wr, "vertex_perm"), "tri", "1.1", False, wd, ws, "vertex_perm", bi)
+        # known witness: outermost interface stored as two cap meshes, vertices of the meshes relabelled
+        cm_ = gd.capped_nested([0.85, 1.0], [1.0, 0.33], 2, [1], wr); cm_["info"]["src_radius"] = 0.85
+        cd_, cs_ = sources_sensors(cm_, wr)
+        ci_ = len(runs); add(len(runs), cm_, "tri", "1.1", False, cd_, cs_, "base", None)
+        add(len(runs), gd.redescribe(cm_, wr, "vertex_perm"), "tri", "1.1", False, cd_, cs_, "vertex_perm", ci_)
         # known witness: the same head with its Domains section listed in reverse order
         wv = gd.redescribe(wm, wr, "identity"); wv["domains"] = list(reversed(wv["domains"]))
         add(len(runs), wv, "tri", "1.1", False, wd, ws, "domain_order", bi)
